@@ -393,6 +393,12 @@ class UpdateCollection(Message):
 
         attr = self.attributes.pack_attribute(negotiated, include_defaults)
 
+        if only_withdraws and not mp_withdraws:
+            # IPv4 withdrawals travel without any path attribute: the attributes of the route being
+            # withdrawn must not be counted against the message, a route with a large attribute set
+            # could otherwise never be withdrawn (no room for one NLRI: nothing was sent at all)
+            attr = b''
+
         # Withdraws/NLRIS (IPv4 unicast and multicast)
         msg_size = negotiated.msg_size - 19 - 2 - 2 - len(attr)  # 2 bytes for each of the two prefix() header
 
